@@ -60,7 +60,7 @@ func defaultPaddingPredicate(w *World, r *Report, prop string) {
 	}
 	points := []point{{def, false}, {def, true}, {"'0'", false}, {"'0'", true}}
 	for _, pt := range points {
-		got, ok := evalPaddingPredicate(pred, pt.ch, pt.left)
+		got, ok := evalPaddingPredicate(w, pred, pt.ch, pt.left)
 		if !ok {
 			r.pass(rule, key, w.pos(pred.Pos()), "not judged: the body of "+fnKey(pred)+" is not a combination of member comparisons")
 			return
@@ -82,7 +82,7 @@ func strconvUnquote(s string) (string, bool) {
 }
 
 // evalPaddingPredicate walks the body of a Padding predicate with the receiver's members fixed to the given values.
-func evalPaddingPredicate(fn *ssa.Function, padChar string, padLeft bool) (result bool, ok bool) {
+func evalPaddingPredicate(w *World, fn *ssa.Function, padChar string, padLeft bool) (result bool, ok bool) {
 	recv := fn.Params[0]
 	isRecv := func(v ssa.Value) bool {
 		v = stripIdentity(v)
@@ -116,10 +116,82 @@ func evalPaddingPredicate(fn *ssa.Function, padChar string, padLeft bool) (resul
 		return nil, false
 	}
 	phis := map[*ssa.Phi]any{}
+	// a whole record as a value: the receiver itself, or a package-level record of defaults that is assigned once by the package
+	// initialiser from a literal and never written afterwards (`p == defaultPadding`). Two records of one type are equal when every
+	// member is; the value is spelled member by member in declaration order so that it can be compared.
+	type recVal string
+	spell := func(t types.Type, at func(i int) (any, bool)) (any, bool) {
+		if pt, isPtr := t.Underlying().(*types.Pointer); isPtr {
+			t = pt.Elem()
+		}
+		st, isSt := t.Underlying().(*types.Struct)
+		if !isSt {
+			return nil, false
+		}
+		out := t.String()
+		for i := 0; i < st.NumFields(); i++ {
+			mv, okm := at(i)
+			if !okm {
+				return nil, false
+			}
+			out += fmt.Sprintf("|%s=%T:%v", st.Field(i).Name(), mv, mv)
+		}
+		return recVal(out), true
+	}
+	record := func(v ssa.Value) (any, bool) {
+		if _, isSt := v.Type().Underlying().(*types.Struct); !isSt {
+			return nil, false
+		}
+		if v == ssa.Value(recv) {
+			return spell(v.Type(), func(i int) (any, bool) { return member(v.Type(), i) })
+		}
+		ld, isLd := v.(*ssa.UnOp)
+		if !isLd || ld.Op != token.MUL {
+			return nil, false
+		}
+		if isRecv(ld.X) {
+			return spell(v.Type(), func(i int) (any, bool) { return member(v.Type(), i) })
+		}
+		g, isG := ld.X.(*ssa.Global)
+		if !isG {
+			return nil, false
+		}
+		members, known := w.globalRecordInit(g)
+		if !known {
+			return nil, false
+		}
+		st := v.Type().Underlying().(*types.Struct)
+		return spell(v.Type(), func(i int) (any, bool) {
+			mv := members[i]
+			if mv == nil {
+				switch {
+				case isStringType(st.Field(i).Type()):
+					return "", true
+				case types.Identical(st.Field(i).Type().Underlying(), types.Typ[types.Bool]):
+					return false, true
+				}
+				return nil, false
+			}
+			k, isK := mv.(*ssa.Const)
+			if !isK || k.Value == nil {
+				return nil, false
+			}
+			switch k.Value.Kind() {
+			case constant.String:
+				return constant.StringVal(k.Value), true
+			case constant.Bool:
+				return constant.BoolVal(k.Value), true
+			}
+			return nil, false
+		})
+	}
 	var eval func(v ssa.Value, depth int) (any, bool)
 	eval = func(v ssa.Value, depth int) (any, bool) {
 		if depth > 20 {
 			return nil, false
+		}
+		if rv, isRec := record(v); isRec {
+			return rv, true
 		}
 		switch x := v.(type) {
 		case *ssa.Const:
